@@ -1164,4 +1164,37 @@ def extract_default(
 """, """    if type(s) in (bool, int, float, complex) or isinstance(s, (int, float, complex)):
         return s
 """)]),
+    # ------------------------------------------------------------------ QUOTE-PAIR (C01, C03, C06, C08)
+    dict(id="quotepair-escape-on-write-only", kind=B, props=["C06", "C08"], expect="QUOTE-PAIR", edits=[("pure_utils.py",
+         """    return "{mark}{s}{mark}".format(mark=mark, s=s)""",
+         """    return "{mark}{s}{mark}".format(mark=mark, s=s.replace(mark, "\\\\" + mark))""")]),
+    dict(id="quotepair-unquote-strips-padding", kind=B, props=["C03", "C01"], expect="QUOTE-PAIR", edits=[("pure_utils.py",
+         """    if (
+        isinstance(input_str, str)
+        and len(input_str) > 1""", """    input_str = input_str.strip() if isinstance(input_str, str) else input_str
+    if (
+        isinstance(input_str, str)
+        and len(input_str) > 1""")]),
+    dict(id="quotepair-positional-template", kind=N, props=["C06", "C08"], expect="silent", edits=[("pure_utils.py",
+         """    return "{mark}{s}{mark}".format(mark=mark, s=s)""",
+         """    return "{0}{1}{0}".format(mark, s)""")]),
+    # ------------------------------------------------------------------ TYPE-LADDER: what stands in front of the ladder
+    dict(id="ladder-unquote-before-inference", kind=B, props=["C17", "C01"], expect="TYPE-LADDER", edits=[("defaults_utils.py",
+         """    default = default.strip(" \\t`")""", """    default = default.strip(" \\t`")
+    if len(default) > 1 and default[0] == default[-1] and default[0] in ("'", '"'):
+        default = default[1:-1]""")]),
+    dict(id="ladder-regex-misses-plus-exponent", kind=B, props=["C17"], expect="TYPE-LADDER", edits=[("defaults_utils.py",
+         """            try:
+                default = int(default)  # signed integers too: `"-5".isdecimal()` is False
+            except ValueError:
+                default = float(default)""", """            import re
+            if re.fullmatch(r"[+-]?\\d+", default):
+                default = int(default)
+            elif re.fullmatch(r"[+-]?(\\d+\\.?\\d*|\\.\\d+)(e-?\\d+)?", default):
+                default = float(default)""")]),
+    # ------------------------------------------------------------------ REJOIN scope
+    dict(id="rejoin-applied-to-default", kind=B, props=["C07", "C18"], expect="REJOIN-UNIFORM", edits=[("docstring_parsers.py",
+         """    if _param.get("default", False) in none_types:""", """    if isinstance(_param["default"], str):
+        _param["default"] = " ".join(map(str.strip, _param["default"].split("\\n")))
+    if _param.get("default", False) in none_types:""")]),
 ]
